@@ -95,6 +95,29 @@ func TestC01(t *testing.T) {
 		}
 		r.Label("regression")
 	}
+	// witness of a repaired defect: a pointer to the first field of the struct that holds it (same address and kind,
+	// another type) was written as a reference to that struct. Interior pointers are not generated and the
+	// comparator has no notion of them: the content is checked directly (the field and the pointer's target come
+	// back equal, whether or not they are one object again).
+	{
+		interior := &zoo.OutFirst{In: zoo.InFirst{X: 5}}
+		interior.P = &interior.In
+		tm, nm := hessian.ExtractTypeNameMap(interior)
+		var out interface{}
+		var err error
+		var b []byte
+		pv, _ := guard(func() {
+			if b, err = hessian.ToBytes(interior, nm); err == nil {
+				out, err = hessian.ToObject(b, tm)
+			}
+		})
+		o, _ := out.(*zoo.OutFirst)
+		if pv != nil || err != nil || o == nil || o.In.X != 5 || o.P == nil || o.P.X != 5 {
+			directFail(t, "C01", map[string]interface{}{"regression": "pointer-to-the-first-field-of-the-enclosing-struct", "bytes": hexClip(b, 200)},
+				"C01 a struct holding a pointer to its own first field: %v %v, result %s", err, pv, zoo.Describe(out, 200))
+		}
+		r.Eval()
+	}
 	cfg := c01Cfg()
 	check(t, "C01", func(rt *rapid.T, c *caseInfo) {
 		g := zoo.NewG(rt, cfg)
